@@ -12,7 +12,7 @@ Family: bounded exhaustive exploration with fault enumeration (no sampling).
               has the algorithm.  The element ledger of src/elems.hpp reports leaks, double destroys, operations on
               dead objects and byte copies of non-relocatable objects; canary bytes surround the raw destination.
   builds      memory.hpp picks a different implementation per language level, so the explorer is compiled for each of
-              -std=c++11/14/17/20.  One -std= is compiled as eight translation-unit variants (-DC15_PART=0..7, one
+              -std=c++11/14/17/20.  One -std= is compiled as nine translation-unit variants (-DC15_PART=0..8, one
               element type each) only because a single unit takes minutes to compile under the sanitizers; the
               union of the parts is the whole enumeration.  thorough adds -O2 builds without UBSan for C++11/14 (what
               a user's optimised build does with the function lacking a return statement) and clang++ builds.
@@ -34,7 +34,7 @@ import vlib  # noqa: E402
 SRC = "c15/c15.cpp"
 STDS = ["c++11", "c++14", "c++17", "c++20"]
 # element type -> translation-unit variant (array types go with their element type); mirrors register_groups()
-PARTS = {"int": 0, "TC4": 1, "TCN": 2, "TR": 3, "NTR": 4, "NTRX": 5, "NTRXMO": 6, "TDCA": 7}
+PARTS = {"int": 0, "TC4": 1, "TCN": 2, "TR": 3, "NTR": 4, "NTRX": 5, "NTRXMO": 6, "TDCA": 7, "ILT": 8}
 
 # -g1: line tables for the sanitizer reports; full -g doubles the compile time of this template-heavy unit.
 SAN_FLAGS = ["-O1", "-g1", "-fsanitize=address", "-fsanitize=return,unreachable,null,alignment",
@@ -172,6 +172,10 @@ def run(ctx):
                  "x element type (int, TC4 trivial, TCN trivially copyable with non-trivial default "
                  "ctor, TDCA trivially default constructible but not trivial, TR declared relocatable, NTR self-pointer, NTRX "
                  "throwing move, NTRXMO move-only with throwing move (no copying algorithm); E[2], E[2][2] for the array "
+                 "forms; ILT, whose constructors (int,int) / initializer_list / (int) / (int,int,int) tell direct from "
+                 "list initialisation, for construct_at(p, args...) over 13 argument-pack shapes and for 11 "
+                 "emplace_back/emplace scenarios of amc::vector, SmallVector<2>, FixedCapacityVector<4> against "
+                 "std::vector; "
                  "forms) x length 0..max_length x fault index k=0..E with E measured on the fault-free run.  One "
                  "evaluation = one (build, case) executed in the amc world and compared with the reference world "
                  "(and the std world where available).  distinct_nontrivial counts the evaluations with length > 0; "
